@@ -90,6 +90,24 @@ def case(ctx, rng, idx, state):
             lattice = lattice @ gen_systems.random_rotation(rng).T
     else:
         kind, lattice = "random", gen_systems.random_lattice(rng)
+    if rng.random() < 0.25:
+        # a non-reduced setting of the same lattice (unimodular integer combination of the lattice vectors, shear up to 4) or a
+        # Gaussian-random cell: strongly sheared supercells are in the property's domain ("all non-degenerate real lattices")
+        if rng.random() < 0.7:
+            U = np.eye(3, dtype=int)
+            for _ in range(int(rng.integers(1, 3))):
+                i, j = rng.choice(3, size=2, replace=False)
+                E = np.eye(3, dtype=int)
+                E[i, j] = int(rng.integers(-4, 5))
+                U = E @ U
+            lattice = U @ lattice
+            kind += "_sheared"
+        else:
+            while True:
+                lattice = rng.normal(size=(3, 3)) * 3
+                if abs(np.linalg.det(lattice)) > 3 and np.linalg.cond(lattice) < 200:
+                    break
+            kind = "gaussian"
     hi = 5 if ctx.thorough else 4
     mp = np.array([int(x) for x in rng.integers(1, hi + 1, size=3)])
     if rng.random() < 0.35:
@@ -143,7 +161,7 @@ def case(ctx, rng, idx, state):
               what="remapper weights per pair", witness=wit)
     # replicas of (b,a) are the negatives of those of (a,b) with the same degeneracy (needed for Hermiticity);
     # judged only when the Wigner-Seitz search is symmetric (moderately skewed supercell)
-    if cond_super <= 12:
+    if True:
         for a in range(nw):
             for b in range(a, nw):
                 neg = {tuple(-x for x in R): n for R, n in pair_sets[b, a].items()}
@@ -151,29 +169,40 @@ def case(ctx, rng, idx, state):
                 if neg != pair_sets[a, b]:
                     ctx.violation("replicas_of_(b,a)_not_negatives_of_(a,b)", f"pair ({a},{b})",
                                   dict(case=wit, pair=(a, b)))
-    else:
-        ctx.count("skewed_supercell_symmetry_not_judged")
 
-    # brute-force Wigner-Seitz oracle with a larger search range (judged for well-shaped supercells only)
-    if cond_super <= 6 and nq <= 36:
+    # Wigner-Seitz oracle (certificate check): for every pair and every R0 all supercell translations that could be as close as the claimed
+    # minimum are enumerated by the harness (box derived from the claimed distance and the supercell metric, no fixed window), the true
+    # minimal set within the tolerance is computed and compared with the selected replicas
+    if nq <= 36 and nw <= 3:
         atol = tol
-        T = np.array([(i, j, k) for i in range(-5, 6) for j in range(-5, 6) for k in range(-5, 6)]) * mp[None, :]
+        Asup = lattice * mp[:, None]
+        coln = np.linalg.norm(np.linalg.inv(Asup), axis=0)
         for a in range(nw):
             for b in range(nw):
                 d_ab = (cred[b] - cred[a])
                 sel = pair_sets[a, b]
-                centre = -np.round(d_ab / mp).astype(int) * mp  # window centred on -d (independent of the code's window)
                 for R0 in mesh:
-                    cand = R0[None, :] + T + centre[None, :]
+                    got = {R for R in sel if tuple(np.array(R) % mp) == tuple(R0 % mp)}
+                    if not got:
+                        ctx.violation("no_replica_selected_for_a_mesh_vector", f"pair ({a},{b}) R0={R0.tolist()}", dict(case=wit, pair=(a, b), R0=R0))
+                        continue
+                    claimed = min(np.linalg.norm((np.array(R) + d_ab) @ lattice) for R in got)
+                    u0 = (R0 + d_ab) / mp
+                    centre = -np.round(u0).astype(int)
+                    nbox = np.floor((claimed + atol) * coln + np.abs(u0 + centre)).astype(int) + 1
+                    if np.prod(2 * nbox + 1) > 200000:
+                        ctx.count("ws_oracle_box_too_large_skipped")
+                        continue
+                    T = np.array([(i, j, k) for i in range(-nbox[0], nbox[0] + 1) for j in range(-nbox[1], nbox[1] + 1)
+                                  for k in range(-nbox[2], nbox[2] + 1)]) + centre[None, :]
+                    cand = R0[None, :] + T * mp[None, :]
                     dist = np.linalg.norm((cand + d_ab[None, :]) @ lattice, axis=1)
                     dmin = dist.min()
                     excess = dist - dmin
-                    ambiguous = np.any((excess > atol / 3) & (excess < atol * 3))
-                    if ambiguous:
+                    if np.any((excess > atol / 3) & (excess < atol * 3)):
                         ctx.count("ws_tie_guard_skipped")
                         continue
                     expected = {tuple(int(x) for x in c) for c in cand[excess <= atol]}
-                    got = {R for R in sel if tuple(np.array(R) % mp) == tuple(R0 % mp)}
                     ctx.ev()
                     if got != expected:
                         ctx.violation("replicas_are_not_the_Wigner-Seitz_minimal_set",
@@ -183,6 +212,7 @@ def case(ctx, rng, idx, state):
                         ctx.violation("Ndegen_is_not_the_number_of_replicas", f"pair ({a},{b}) R0={R0.tolist()}",
                                       dict(case=wit, pair=(a, b), R0=R0))
         ctx.count("ws_bruteforce_cases")
+        ctx.count("ws_bruteforce_sheared_cases", int(cond_super > 12))
 
     # ---------------- round trip for scalar / vector / tensor data ----------------------------
     for cart in (0, 1, 2):
@@ -210,10 +240,7 @@ def case(ctx, rng, idx, state):
         index = {tuple(R): i for i, R in enumerate(iR.tolist())}
         missing = [R for R in index if tuple(-x for x in R) not in index]
         if missing:
-            if cond_super <= 12:
-                ctx.violation("R_set_not_closed_under_-R", f"{missing[:5]}", wit)
-            else:
-                ctx.count("skewed_supercell_-R_missing_not_judged")
+            ctx.violation("R_set_not_closed_under_-R", f"{missing[:5]}", wit)
         else:
             XRc = np.array([np.conj(np.swapaxes(XR[index[tuple(-x for x in R)]], 0, 1)) for R in iR.tolist()])
             ctx.close("X(-R)!=X(R)^dagger", XRc, XR, rtol=1e-11, scale=np.abs(XR).max(), what=f"hermiticity cart={cart}", witness=wit)
@@ -254,10 +281,10 @@ if __name__ == "__main__":
     harness.main(
         PROP, "exploration", case, setup_fn=setup,
         tiers=dict(quick=dict(cases=120, shards=8, time=150), thorough=dict(cases=4000, shards=16, time=1100)),
-        rule="lattices from the Bravais catalogue (randomly rotated) or random (cond<=20), meshes 1..5 per direction incl. anisotropic, "
+        rule="lattices from the Bravais catalogue (randomly rotated) or random (cond<=20), a quarter of them in non-reduced (sheared, shear<=4) or Gaussian-random settings, meshes 1..5 per direction incl. anisotropic, "
              "randomly permuted and G-shifted mesh lists, centres random/outside/co-centred/high-symmetry/zero, WS tolerances 1e-7..1e-2 and the "
              "negative legacy mode, scalar/vector/rank-2 Hermitian data; non-trivial = at least one replica with Ndegen>1 or centres outside the home cell",
-        assumptions=["oracle = explicit Fourier sum in plain numpy; brute-force Wigner-Seitz search over +-5 supercells around -(t_b-t_a) judged only for supercell cond<=6",
-                     "R<->-R symmetry of the replica sets judged only for supercell cond<=12 (the code's fixed +-3 search is not symmetric on extremely skewed supercells)"],
-        required_counters=("boundary_replicas_seen", "do_ws_dist", "ws_bruteforce_cases", "w90_end_to_end_cases", "w90_disentangled_cases"),
+        assumptions=["oracle = explicit Fourier sum in plain numpy; Wigner-Seitz certificate check: all supercell translations within the claimed minimal distance "
+                     "are enumerated by the harness (box from the supercell metric)"],
+        required_counters=("boundary_replicas_seen", "do_ws_dist", "ws_bruteforce_cases", "ws_bruteforce_sheared_cases", "w90_end_to_end_cases", "w90_disentangled_cases"),
     )
